@@ -292,15 +292,19 @@ func open(ctx context.Context, h *Handler, acked bool, s *xmpp.Session, start st
 		iq.Open.BlockSize = blockSize
 	}
 
+	// Register the stream before asking for it: the responder may start sending
+	// data as soon as it has accepted, and those packets can be handled before
+	// this goroutine gets to run again after the reply.
+	conn := newConn(h, s, iq, false, MaxBufferSize)
+	h.addStream(sid, conn)
+
 	// The stream only exists if the responder accepted it: an error reply
 	// (no listener, unsupported block size, …) is returned as a stanza.Error.
 	err := s.UnmarshalIQ(ctx, iq.TokenReader(), nil)
 	if err != nil {
+		h.rmStream(sid)
 		return nil, err
 	}
-
-	conn := newConn(h, s, iq, false, MaxBufferSize)
-	h.addStream(sid, conn)
 	return conn, nil
 }
 
